@@ -588,5 +588,5 @@ Proof. vm_compute. reflexivity. Qed.
 (* the inventory: how many sites of each class *)
 Example C19_ex_inventory :
   (Sites.count Sites.M, Sites.count Sites.D, Sites.count Sites.H, Sites.count Sites.X, Sites.count Sites.NW)
-  = (124, 2, 17, 16, 77)%nat.
+  = (125, 2, 19, 16, 77)%nat.
 Proof. vm_compute. reflexivity. Qed.
